@@ -1,6 +1,7 @@
 package props
 
 import (
+	"github.com/filecoin-project/go-jsonrpc/auth"
 	"net/http"
 
 	"context"
@@ -95,6 +96,14 @@ func (c06) Plan(tier string, seed int64) []core.Scenario {
 	for i := 0; i < nCh; i++ {
 		out = append(out, core.Sc("churn").WithN("long", 1+i%3).WithN("rounds", 2+i%4).WithN("unary", i%2))
 	}
+	for f := 1; f < len(c01Formatters); f++ {
+		for _, tr := range []string{"ws", "http"} {
+			out = append(out, core.Sc("cancel").WithS("transport", tr).WithN("k", 2).WithN("s", map[string]int{"ws": 1, "http": 0}[tr]).WithN("mask", 1+f%3).WithN("inst", 1).WithN("clients", 1).WithN("fmt", f))
+		}
+	}
+	for i, tr := range []string{"ws", "http"} {
+		out = append(out, core.Sc("behind-auth").WithS("transport", tr).WithN("token", 1).WithN("i", i))
+	}
 	for set := 0; set < 6; set++ {
 		for order := 0; order < 2; order++ {
 			out = append(out, core.Sc("rawids").WithN("set", set).WithN("order", order))
@@ -109,6 +118,10 @@ func (c06) Plan(tier string, seed int64) []core.Scenario {
 
 func (p c06) Run(sc core.Scenario) core.Result {
 	r := core.NewR(sc)
+	if sc.Kind == "behind-auth" {
+		p.behindAuth(sc, r)
+		return r.Result()
+	}
 	if sc.Kind == "rawids" {
 		p.rawIDs(sc, r)
 		return r.Result()
@@ -160,13 +173,20 @@ func cancelFrameSeen(px *wsproxy.Proxy, tok string) bool {
 func (c06) cancel(sc core.Scenario, r *core.R) {
 	tr := sc.Str("transport")
 	k, s, mask, inst, nClients := sc.I("k"), sc.I("s"), sc.I("mask"), sc.I("inst"), sc.I("clients")
-	env := NewEnv(EnvOpt{})
+	var sopts []jsonrpc.ServerOption
+	var copts []jsonrpc.Option
+	if f := sc.I("fmt"); f > 0 {
+		// the same non-default method name formatter on both sides
+		sopts = append(sopts, jsonrpc.WithServerMethodNameFormatter(c01Formatters[f].f))
+		copts = append(copts, jsonrpc.WithMethodNameFormatter(c01Formatters[f].f))
+	}
+	env := NewEnv(EnvOpt{ServerOpts: sopts})
 	defer env.Shutdown()
 	pol := noisePolicy(sc)
 	defer pol.Install()()
 	var cls []*Client
 	for i := 0; i < nClients; i++ {
-		c, err := env.NewClient(ClientOpt{Transport: tr})
+		c, err := env.NewClient(ClientOpt{Transport: tr, Opts: copts})
 		if err != nil {
 			r.Inconclusive("client: %v", err)
 			return
@@ -312,7 +332,7 @@ func (c06) cancel(sc core.Scenario, r *core.R) {
 			r.Violate("foreign-cancel", "%s: open subscription %s lost its context although nobody cancelled it", tr, m.tok)
 		}
 	}
-	r.Key(fmt.Sprintf("%s k=%d s=%d clients=%d mask=%d inst=%d", tr, k, s, nClients, mask, inst), live >= 2)
+	r.Key(fmt.Sprintf("%s k=%d s=%d clients=%d mask=%d inst=%d fmt=%d", tr, k, s, nClients, mask, inst, sc.I("fmt")), live >= 2)
 	r.Obs("contexts_live_at_cancel", int64(live))
 	r.Obs("cancelled", int64(len(cancelled)))
 	r.Sig(core.Log.Signature())
@@ -686,4 +706,58 @@ func (c06) rawIDs(sc core.Scenario, r *core.R) {
 	env.Svc.ReleaseAll()
 	r.Key(fmt.Sprintf("rawids set=%d order=%d", sc.I("set")%len(sets), sc.I("order")), true)
 	r.Sample(map[string]interface{}{"scenario": "look-alike ids of different JSON type in flight, cancelled one by one by a raw websocket peer", "ids": ids})
+}
+
+// behindAuth: the server is mounted behind auth.Handler and the client presents a token that verifies. A
+// call and a subscription that last longer than any internal verification deadline (6 s here) must not see
+// their handler contexts cancelled: nobody cancelled and the connection is healthy.
+func (c06) behindAuth(sc core.Scenario, r *core.R) {
+	tr := sc.Str("transport")
+	env := NewEnv(EnvOpt{Wrap: func(next http.Handler) http.Handler {
+		return &auth.Handler{
+			Verify: func(ctx context.Context, token string) ([]auth.Permission, error) {
+				return []auth.Permission{"read", "write"}, nil
+			},
+			Next: next.ServeHTTP,
+		}
+	}})
+	defer env.Shutdown()
+	cl, err := env.NewClient(ClientOpt{Transport: tr, Header: http.Header{"Authorization": []string{"Bearer tok"}}})
+	if err != nil {
+		r.Inconclusive("client: %v", err)
+		return
+	}
+	bg := context.Background()
+	t := Tok("h")
+	env.Svc.Hold(t)
+	o := Go(t, func() (string, error) { return cl.Echo(bg, t, "") })
+	if !env.Svc.WaitEntered(t, core.Grace) {
+		r.Inconclusive("held call never entered")
+		return
+	}
+	var g *got
+	ts := Tok("s")
+	if tr == "ws" {
+		if ch, err := cl.Sub(bg, ts, 0, svc.SInfinite); err == nil {
+			g = drainItems(ch, time.Millisecond, -1, nil)
+		}
+	}
+	time.Sleep(6 * time.Second)
+	where := fmt.Sprintf("%s server behind auth.Handler, verified token, 6 s into a call nobody cancelled", tr)
+	if env.Svc.Get(t).Ctx.Err() != nil {
+		r.Violate("spurious-cancel:auth", "%s: the handler's context is cancelled (%v)", where, env.Svc.Get(t).Ctx.Err())
+	}
+	if o.Returned() {
+		r.Violate("spurious-cancel:auth", "%s: the held call already returned (%q, %v)", where, o.Val, o.Err)
+	}
+	if g != nil && g.isClosed() {
+		r.Violate("spurious-cancel:auth", "%s: an open subscription was closed", where)
+	}
+	env.Svc.ReleaseAll()
+	if !o.Wait(core.Grace) || o.Err != nil || o.Val != svc.Reply(t) {
+		r.Violate("spurious-cancel:auth", "%s: the call did not complete normally after release: (%q, %v)", where, o.Val, o.Err)
+	}
+	r.Key("behind-auth "+tr, true)
+	r.Obs("contexts_live_at_cancel", 1)
+	r.Sample(map[string]interface{}{"scenario": where})
 }
